@@ -114,6 +114,11 @@ class Ctx:
         os.makedirs(EVIDENCE_DIR, exist_ok=True)
         with open(os.path.join(EVIDENCE_DIR, self.pid + '.json'), 'w') as fh:
             json.dump(ev, fh, indent=1, default=str)
+        by_sig: Dict[str, int] = {}
+        for v in self.violations:
+            by_sig[v['sig']] = by_sig.get(v['sig'], 0) + 1
+        if by_sig:
+            self.log('violations by signature: %s' % by_sig)
         self.log('done: violations=%d known=%s wall=%.1fs' % (len(self.violations), self.known_hits, ev['wall_s']))
         sys.exit(1 if self.violations else 0)
 
